@@ -147,6 +147,36 @@ def check_spec(ctx, spec, points):
                 ctx.violation("derivative", "d%s/dt differs from sum over reactions of (S+S_d) x rate" % s,
                               {"spec": spec, "point": {k: str(v) for k, v in pt["x"].items()}, "t": str(pt["t"]),
                                "species": s, "implementation": float(dx[i]), "expected": float(want[i])})
+    # ---- the safe interface reports the same derivative wherever its guard is idle: it leaves out the reactions that
+    # consume a species that is at zero, which changes nothing when those reactions' rates are zero there (mass action);
+    # points where the guard does leave out a non-zero term, or refuses a negative net rate, are outside this comparison
+    from bioscrape.simulator import SafeModelCSimInterface
+    import warnings
+    Is = SafeModelCSimInterface(build_model(spec))
+    Is.py_prep_deterministic_simulation()
+    N = Uo + Do
+    for ip, pt in enumerate(points):
+        x = state_vector(M, pt["x"])
+        rates = np.array([rate_oracle(r, pt["x"], spec["params"], pt["t"]) for r in spec["reactions"]])
+        left_out = [(i, j) for i in range(len(sl)) for j in range(N.shape[1]) if N[i, j] < 0 and x[i] <= 0]
+        if np.any(x < 0) or np.any(rates < 0) or any(rates[j] != 0 for _, j in left_out):
+            ctx.count("safe_guard_active_or_signed")
+            continue
+        dx = np.full(len(sl), np.nan)
+        with warnings.catch_warnings():
+            warnings.simplefilter("ignore")
+            Is.py_calculate_deterministic_derivative(x.copy(), dx, float(pt["t"]))
+        want = N @ rates
+        scale = np.abs(N) @ np.abs(rates) + 1e-300
+        ctx.evaluated()
+        bad = [i for i in range(len(sl)) if not abs(dx[i] - want[i]) <= 1e-11 * scale[i]]
+        if bad:
+            i = bad[0]
+            ctx.violation("derivative/safe", "safe interface: d%s/dt differs from sum over reactions of (S+S_d) x rate at a state where its guard leaves out only zero terms" % sl[i],
+                          {"spec": spec, "point": {k: str(v) for k, v in pt["x"].items()}, "t": str(pt["t"]),
+                           "species": sl[i], "implementation": float(dx[i]), "expected": float(want[i]), "safe": True})
+            break
+        ctx.count("safe_derivative_points" + ("_with_a_species_at_zero" if left_out else ""))
     # ---- correspondence with the Lean model
     ans = driver_batch([network_job(spec, M, points, "float")])[0]
     if "error" in ans:
